@@ -30,6 +30,14 @@ type Plant struct {
 	Site  string    // structural role of the site, e.g. "message/depth1/file0"
 	Opts  *LintOpts // overrides the lint options (nil: the options under which the base is clean)
 	Heavy bool      // always lint with the PROTOVALIDATE-including configurations
+	// ThoroughOnly: the instance is left out of the quick tier (a larger bound of an enumerated dimension).
+	ThoroughOnly bool
+	// Bulk: one of many instances that bring the same few option sets; the configuration shapes (which
+	// depend on the option set only, and cost a PROTOVALIDATE evaluation each in v2) are spent on the first
+	// instance of the operator instead of on every instance.
+	Bulk bool
+	// Class is an optional coverage label: the run counts the instances per label (vacuity guards).
+	Class string
 	Apply func(s *Spec) []Expect
 }
 
@@ -623,6 +631,11 @@ func Plants(p Params) []Plant {
 		})
 	}
 
+	// google.protobuf.Empty usage matrix: how many RPCs use Empty in which role x which allowances are set.
+	if p.Empty == 0 {
+		c.emptyUsageMatrix(o, len(methods))
+	}
+
 	// ---------------------------------------------------------------- comments
 	for _, bad := range BadDocs {
 		for i, ma := range probe.AllMessages() {
@@ -1040,6 +1053,134 @@ func addImport(f *File, im *Import, first bool) {
 		f.Imports = append([]*Import{im}, f.Imports...)
 	} else {
 		f.Imports = append(f.Imports, im)
+	}
+}
+
+// ---- google.protobuf.Empty usage matrix ---------------------------------------------------------------
+//
+// The existing Empty operators plant one shape each (one RPC; two RPCs in the same role). The uniqueness
+// rule and the two standard-name rules depend on *how many* RPCs use Empty in *which role* and on which
+// of the allowances are configured, so that space is enumerated here:
+//
+//	usage vector  (a, b, c): a RPCs take Empty (and return their own message), b RPCs return Empty (and
+//	              take their own message), c RPCs are Empty -> Empty; quick a, b <= 2, c <= 1; thorough
+//	              a, b <= 3, c <= 2; 1 <= a+b+c <= number of RPCs of the workspace
+//	allowances    every subset of {rpc_allow_google_protobuf_empty_requests, ..._responses}, and
+//	              rpc_allow_same_request_response where an Empty -> Empty RPC exists
+//	placement     which RPCs get the roles: in declaration order (fills the first service first), in reverse
+//	              order (second package first), and starting at the last RPC of the first service (so that
+//	              two users sit in two packages)
+//
+// Expected annotations (emptyUsageExpect) follow the documented meaning of the options: a usage of Empty in
+// a role whose allowance is set is legitimate and is not counted by any rule; every other usage is an
+// ordinary usage of an ordinary type.
+
+// emptyUsageExpect is the reference model for the three RPC rules on google.protobuf.Empty.
+func emptyUsageExpect(ms []MethodAt, o LintOpts) []Expect {
+	var ex []Expect
+	var counted []*Method // RPCs with a usage of Empty that no allowance covers
+	for _, ma := range ms {
+		m := ma.Method
+		isReq, isResp := m.Req.Ext == emptyType.Ext, m.Resp.Ext == emptyType.Ext
+		if isReq && !o.AllowEmptyReq {
+			ex = append(ex, must("RPC_REQUEST_STANDARD_NAME", m, "req"))
+		}
+		if isResp && !o.AllowEmptyResp {
+			ex = append(ex, must("RPC_RESPONSE_STANDARD_NAME", m, "resp"))
+		}
+		if (isReq && !o.AllowEmptyReq) || (isResp && !o.AllowEmptyResp) {
+			counted = append(counted, m)
+		}
+		// the same type as request and response of one RPC; legitimate only if both roles are allowed
+		if isReq && isResp && !o.AllowSame && !(o.AllowEmptyReq && o.AllowEmptyResp) {
+			ex = append(ex, must("RPC_REQUEST_RESPONSE_UNIQUE", m, "decl"))
+		}
+	}
+	// a type used (in a role that is not allowed) by more than one RPC
+	if len(counted) >= 2 {
+		for _, m := range counted {
+			ex = append(ex, must("RPC_REQUEST_RESPONSE_UNIQUE", m, "decl"))
+		}
+	}
+	return ex
+}
+
+func (c *catalogue) emptyUsageMatrix(o LintOpts, nMethods int) {
+	type placement struct {
+		name  string
+		order []int
+	}
+	var fwd, rev, mid []int
+	lastOfFirstService := len(c.probe.AllServices()[0].Svc.Methods) - 1
+	for i := 0; i < nMethods; i++ {
+		fwd = append(fwd, i)
+		rev = append(rev, nMethods-1-i)
+		mid = append(mid, (lastOfFirstService+i)%nMethods)
+	}
+	placements := []placement{{"declaration-order", fwd}, {"reverse-order", rev}, {"across-services", mid}}
+	for a := 0; a <= 3; a++ {
+		for b := 0; b <= 3; b++ {
+			for both := 0; both <= 2; both++ {
+				users := a + b + both
+				if users == 0 || users > nMethods {
+					continue
+				}
+				thoroughOnly := a > 2 || b > 2 || both > 1
+				for flags := 0; flags < 4; flags++ {
+					for same := 0; same < 2; same++ {
+						if same == 1 && both == 0 {
+							continue // rpc_allow_same_request_response has nothing to allow
+						}
+						opts := o
+						opts.AllowEmptyReq, opts.AllowEmptyResp, opts.AllowSame = flags&1 != 0, flags&2 != 0, same == 1
+						op := "rpc-empty-usage/allow-" + []string{"none", "requests", "responses", "both"}[flags]
+						if same == 1 {
+							op += "+same"
+						}
+						// coverage class: exactly one allowance, Empty shared by several RPCs, n usages left
+						// that the allowance does not cover
+						class := ""
+						if users >= 2 && (flags == 1 || flags == 2) {
+							left := a + both
+							if flags == 1 {
+								left = b + both
+							}
+							if left > 2 {
+								left = 2
+							}
+							class = fmt.Sprintf("empty-shared/one-allowance/uncovered-usages=%d", left)
+							if left == 2 {
+								class += "+"
+							}
+						}
+						for _, pm := range placements {
+							c.out = append(c.out, Plant{
+								Op: op, Rule: "RPC_REQUEST_RESPONSE_UNIQUE",
+								Site:         fmt.Sprintf("rpcs/empty-req=%d,empty-resp=%d,empty-both=%d/%s", a, b, both, pm.name),
+								Opts:         &opts,
+								ThoroughOnly: thoroughOnly,
+								Bulk:         true,
+								Class:        class,
+								Apply: func(s *Spec) []Expect {
+									ms := s.AllMethods()
+									for k := 0; k < users; k++ {
+										x := ms[pm.order[k]]
+										useEmpty(x.File)
+										if k < a || k >= a+b {
+											x.Method.Req = emptyType
+										}
+										if k >= a {
+											x.Method.Resp = emptyType
+										}
+									}
+									return emptyUsageExpect(ms, opts)
+								},
+							})
+						}
+					}
+				}
+			}
+		}
 	}
 }
 
